@@ -92,6 +92,11 @@ pub fn history<F: Fl, const ALPHA: u8, const SK: u8, const DEPTH: usize>(cap: u6
     let mut w = World::<F>::new(cap);
     set_world::<F>(&mut w);
     let mut m = Model::new(n);
+    // a reclamation-epoch announcement may be pending from the start (no effect on the model)
+    let epoch_pending: bool = kani::any();
+    if epoch_pending {
+        inject_epoch_pending::<F>(w.tx[0].as_ref().unwrap());
+    }
     // Skeleton: the operation kind of every step is fixed (one alphabet = one skeleton in which the
     // operations recur in a mixed order); the solver decides for every step whether it is executed
     // or skipped, i.e. the harness covers every sub-sequence of the skeleton.  A free choice of
